@@ -969,6 +969,8 @@ C09.order:phase: values are linked in a later pass over the definitions than the
     // a class-field reference is replaced by the field's type and nothing else changes (= C02.rebuild)
     crate::rules::c02::rebuild(m, ctx, "C09.rebuild");
     order(m, ctx, "C09.order");
+    // a DEFAULT copied into a SEQUENCE value is linked whether or not its type was linked before (= C07.struct)
+    crate::rules::c07::implicit_defaults(m, ctx, "C09.order");
     params(m, ctx);
     constraint_pairs(m, ctx, "C09.sym");
 
